@@ -1,6 +1,89 @@
-import CCT.Model.Auth
-/-! # C02 — threshold completeness (theorems; work in progress) -/
+import CCT.Props.C01
+/-!
+# C02 — threshold completeness: enough valid authorized signers always suffice
+
+The model has no standard-output parameter and no import-order parameter at all: a skipped entry has no effect
+whatsoever (`verifyEntry_eq`), which is what the property demands; the correspondence check runs the implementation
+under several stdout encodings and in fresh processes to tie that to the code.
+-/
 namespace CCT.C02
-open CCT
-theorem placeholder : okU = .ok () := rfl
+open CCT CCT.C15 CCT.C01
+open Classical
+
+/-- **completeness**: well-typed arguments and a met threshold are accepted — whatever else is in the signature map -/
+theorem verifySignable_complete (C : CryptoFns) (env keys thr : J) (gpg : Bool) (entries : List (PStr × J)) (signed : J) (ks : List J) (t : Int)
+    (hp : EnvParts env entries signed) (hkeys : keys = .arr ks) (hk : ∀ k ∈ ks, HexN 64 k) (ht : asInt thr = some t) (hpos : 0 < t)
+    (hm : ThresholdMet C gpg (ks.map strOf) (ser signed) entries t.toNat) :
+    verifySignableJ C env keys thr gpg = .ok () := by
+  rw [verifySignable_welltyped C env keys thr gpg entries signed ks t hp hkeys hk ht hpos]; simp [hm]
+
+/-- **exact characterisation** of acceptance (C01 ∧ C02) -/
+theorem verifySignable_iff (C : CryptoFns) (env keys thr : J) (gpg : Bool) :
+    verifySignableJ C env keys thr gpg = .ok () ↔
+    ∃ entries signed ks t, EnvParts env entries signed ∧ keys = .arr ks ∧ (∀ k ∈ ks, HexN 64 k) ∧ asInt thr = some t ∧ 0 < t ∧
+      ThresholdMet C gpg (ks.map strOf) (ser signed) entries t.toNat := by
+  constructor
+  · exact verifySignable_sound C env keys thr gpg
+  · rintro ⟨entries, signed, ks, t, hp, hkeys, hk, ht, hpos, hm⟩
+    exact verifySignable_complete C env keys thr gpg entries signed ks t hp hkeys hk ht hpos hm
+
+/-- insufficient valid signatures on otherwise well-formed arguments are reported as a signature error -/
+theorem insufficient_is_signature_error (C : CryptoFns) (env keys thr : J) (gpg : Bool) (entries : List (PStr × J)) (signed : J) (ks : List J) (t : Int)
+    (hp : EnvParts env entries signed) (hkeys : keys = .arr ks) (hk : ∀ k ∈ ks, HexN 64 k) (ht : asInt thr = some t) (hpos : 0 < t)
+    (hm : ¬ ThresholdMet C gpg (ks.map strOf) (ser signed) entries t.toNat) :
+    verifySignableJ C env keys thr gpg = .error .signature := by
+  rw [verifySignable_welltyped C env keys thr gpg entries signed ks t hp hkeys hk ht hpos]; simp [hm]
+
+/-- the order of entries in the signature map is irrelevant -/
+theorem entry_order_irrelevant (C : CryptoFns) (gpg : Bool) (auth : List PStr) (data : Bytes) (entries entries' : List (PStr × J))
+    (h : entries.Perm entries') (thr : Nat) :
+    ThresholdMet C gpg auth data entries thr ↔ ThresholdMet C gpg auth data entries' thr :=
+  thresholdMet_iff_counting C gpg auth data entries entries' (fun _ _ _ => h.mem_iff) thr
+
+/-- the order (and multiplicity) of keys in the authorized list is irrelevant -/
+theorem key_order_irrelevant (C : CryptoFns) (gpg : Bool) (auth auth' : List PStr) (data : Bytes) (entries : List (PStr × J))
+    (h : ∀ k, k ∈ auth ↔ k ∈ auth') (thr : Nat) :
+    ThresholdMet C gpg auth data entries thr ↔ ThresholdMet C gpg auth' data entries thr := by
+  have hc : ∀ k sig, Counts C gpg auth data k sig ↔ Counts C gpg auth' data k sig := fun k sig => by
+    unfold Counts; rw [h k]
+  constructor
+  · rintro ⟨S, hS, hl, hall⟩
+    exact ⟨S, hS, hl, fun k hk => by obtain ⟨sig, hm, hcs⟩ := hall k hk; exact ⟨sig, hm, (hc k sig).mp hcs⟩⟩
+  · rintro ⟨S, hS, hl, hall⟩
+    exact ⟨S, hS, hl, fun k hk => by obtain ⟨sig, hm, hcs⟩ := hall k hk; exact ⟨sig, hm, (hc k sig).mpr hcs⟩⟩
+
+/-- additional unauthorized, invalid or malformed entries (any JSON strings as keys, any JSON values) never hurt … -/
+theorem junk_never_hurts (C : CryptoFns) (gpg : Bool) (auth : List PStr) (data : Bytes) (entries junk : List (PStr × J)) (thr : Nat)
+    (h : ThresholdMet C gpg auth data entries thr) : ThresholdMet C gpg auth data (entries ++ junk) thr := by
+  obtain ⟨S, hS, hl, hall⟩ := h
+  exact ⟨S, hS, hl, fun k hk => by obtain ⟨sig, hm, hc⟩ := hall k hk; exact ⟨sig, List.mem_append.mpr (Or.inl hm), hc⟩⟩
+
+/-- … and never help (this direction is what C06 needs) -/
+theorem junk_never_helps (C : CryptoFns) (gpg : Bool) (auth : List PStr) (data : Bytes) (entries junk : List (PStr × J)) (thr : Nat)
+    (hj : ∀ p ∈ junk, ¬ Counts C gpg auth data p.1 p.2)
+    (h : ThresholdMet C gpg auth data (entries ++ junk) thr) : ThresholdMet C gpg auth data entries thr := by
+  obtain ⟨S, hS, hl, hall⟩ := h
+  refine ⟨S, hS, hl, fun k hk => ?_⟩
+  obtain ⟨sig, hm, hc⟩ := hall k hk
+  rcases List.mem_append.mp hm with hm | hm
+  · exact ⟨sig, hm, hc⟩
+  · exact absurd hc (hj (k, sig) hm)
+
+/-- a lower threshold is met whenever a higher one is -/
+theorem thresholdMet_mono (C : CryptoFns) (gpg : Bool) (auth : List PStr) (data : Bytes) (entries : List (PStr × J)) (a b : Nat) (hab : a ≤ b)
+    (h : ThresholdMet C gpg auth data entries b) : ThresholdMet C gpg auth data entries a := by
+  obtain ⟨S, hS, hl, hall⟩ := h
+  exact ⟨S, hS, by omega, hall⟩
+
+-- non-vacuity: two signers, threshold 2, with junk whose key is a lone surrogate and whose value is not a dict
+def k2 : PStr := List.replicate 64 50
+def sigOf (k : PStr) (v : J) : J := .obj [(ps! "signature", .str (hexOfBytes (toyC.sign (unhex k) (ser v))))]
+def env2 : J :=
+  .obj [(ps! "signed", .arr [.int 7, .str [233]]),
+        (ps! "signatures", .obj [([0xd800], .int 5), (k2, sigOf k2 (.arr [.int 7, .str [233]])), (ps! "é", .null),
+                                 (k1, sigOf k1 (.arr [.int 7, .str [233]]))])]
+example : verifySignableJ toyC env2 (.arr [.str k1, .str k2]) (.int 2) false = .ok () := by decide +kernel
+example : verifySignableJ toyC env2 (.arr [.str k2, .str k1, .str k2]) (.int 2) false = .ok () := by decide +kernel
+example : verifySignableJ toyC env2 (.arr [.str k1, .str k2]) (.int 3) false = .error .signature := by decide +kernel
+
 end CCT.C02
